@@ -226,6 +226,34 @@ RACES = [
      "[CMon 1 1; CJoin 2 1 [1; 2]]", [("j", 1, 1, [1]), ("m", 2, 1), ("ms", 0, 4)],
      [rep("LX 1", 1), rep("LT 0", 20), rep("LT 1", 20), rep("LX 1", 20)],
      [("x", 1), ("m", 1, 1), ("j", 2, 1, [1, 2])]),
+    # --- explicit leave / demonitor overlapping a registration of the same actor, then the actor's REAL exit.
+    # The pinned code removes the reverse-index record of a membership under the group's forward entry
+    # (model: one LL step does both) and never removes the relations record of a live actor.
+    ("leave_scoped parked after its entry section, join of the same actor+group, then the actor exits",
+     "race m 1 3;j 1 1 1 | start A l 1 1 1 @leave.released | start B j 1 1 1 | go A | stop 1",
+     "[CLeave 1 1 [1]; CJoin 1 1 [1]]", [("m", 1, 3), ("j", 1, 1, [1])],
+     [rep("LT 0", 3), rep("LT 1", 20), rep("LT 0", 20), rep("LX 1", 30)],
+     [("l", 1, 1, [1]), ("j", 1, 1, [1]), ("x", 1)]),
+    ("same with a second member and a scope monitor; the leave names both",
+     "race ms 1 4;j 1 1 1,2 | start A l 1 1 1,2 @leave.released | start B j 1 1 1 | go A | stop 1",
+     "[CLeave 1 1 [1; 2]; CJoin 1 1 [1]]", [("ms", 1, 4), ("j", 1, 1, [1, 2])],
+     [rep("LT 0", 4), rep("LT 1", 20), rep("LT 0", 20), rep("LX 1", 30)],
+     [("l", 1, 1, [1, 2]), ("j", 1, 1, [1]), ("x", 1)]),
+    ("last demonitor while monitor_scope holds the relations handle, then the actor exits",
+     "race m 1 1 | start A ms 2 1 @monitor_scope.created | start B d 1 1 | go A | stop 1",
+     "[CMonScope 2 1; CDemon 1 1]", [("m", 1, 1)],
+     [rep("LT 0", 1), rep("LT 1", 5), rep("LT 0", 10), rep("LX 1", 30)],
+     [("d", 1, 1), ("ms", 2, 1), ("x", 1)]),
+    ("last demonitor_scope while monitor holds the relations handle, then the actor exits",
+     "race ms 2 1 | start A m 1 1 @monitor.created | start B ds 2 1 | go A | stop 1",
+     "[CMon 1 1; CDemonScope 2 1]", [("ms", 2, 1)],
+     [rep("LT 0", 1), rep("LT 1", 5), rep("LT 0", 10), rep("LX 1", 30)],
+     [("ds", 2, 1), ("m", 1, 1), ("x", 1)]),
+    ("last demonitor while monitor (other group) holds the handle; a member joins the monitored group; exit",
+     "race m 1 1;ms 0 4 | start A m 2 1 @monitor.created | start B d 1 1 | go A | start C j 1 2 2 | stop 1 | start D l 1 2 2",
+     "[CMon 2 1; CDemon 1 1; CJoin 1 2 [2]; CLeave 1 2 [2]]", [("m", 1, 1), ("ms", 0, 4)],
+     [rep("LT 0", 1), rep("LT 1", 5), rep("LT 0", 10), rep("LT 2", 20), rep("LX 1", 30), rep("LT 3", 20)],
+     [("d", 1, 1), ("m", 2, 1), ("j", 1, 2, [2]), ("x", 1), ("l", 1, 2, [2])]),
 ]
 
 
@@ -249,20 +277,34 @@ def run_races(chk, build, rounds, only=None):
         sch = " ++ ".join(sched)
         exprs.append(f"view_of {UNIVERSE} (c_pg (crun (fold_left solo_op {ops_term(setup)} (cinit {calls})) ({sch}))) "
                      f"(clog (fold_left solo_op {ops_term(setup)} (cinit {calls})) ({sch}))")
-        v = show_term(parse_term(impl[k])[1])
+        views = parse_term(impl[k])
+        v = show_term(views[-1])
         ops = ops_term(setup + lin)
-        exprs.append(f"(check_queries {UNIVERSE} (spec_run {ops}) {v} && check_snapshot {UNIVERSE} (spec_run {ops}) (v_snap {v}))%bool")
+        e = f"check_queries {UNIVERSE} (spec_run {ops}) {v} && check_snapshot {UNIVERSE} (spec_run {ops}) (v_snap {v})"
+        # the exit itself: view taken right after wait() returned, judged as the step OExit a
+        stops = [w for w in line.split("|") if w.split()[:1] == ["stop"]]
+        if stops:
+            a = int(stops[-1].split()[1])
+            xi = max(i for i, o in enumerate(lin) if o[0] == "x" and o[1] == a)
+            nstop_after = 0  # views: [setup, (pre, post)*, final]; the last stop's post view
+            post = show_term(views[-2])
+            before = ops_term(setup + lin[:xi])
+            upto = ops_term(setup + lin[:xi + 1])
+            e += (f" && check_view {UNIVERSE} (spec_run {before}) (OExit {a}) {post}"
+                  f" && check_exit_counts {UNIVERSE} (spec_run {before}) (spec_run {upto}) {a} (v_events {post})")
+        exprs.append(f"({e})%bool")
     vals = coq_eval("C11r", IMPORTS, exprs, shards=min(NCPU, 6))
     bad = []
     for k, line in enumerate(lines):
         name = sel[k % len(sel)][0]
         mv = canon(parse_term(vals[2 * k]))
-        iv = canon(parse_term(impl[k])[1])
+        views = parse_term(impl[k])
+        iv = canon(views[-1])
         chk.coverage["evaluations"] += 1
         chk.count("race." + name)
         # observation (not judged: the property does not order notifications of different calls):
         # a monitor handles the automatic Leave of an actor and only later the Join naming it
-        evs = parse_term(impl[k])[1][8]
+        evs = [e for v in views[1:] for e in v[8]]
         seen_obs = False
         for l in {e[1] for e in evs}:
             mine = [e for e in evs if e[1] == l]
@@ -280,11 +322,11 @@ def run_races(chk, build, rounds, only=None):
             chk.violation("race: documented notification order (Leave of the exited actor, then the Join naming it) no longer observed",
                           "correspondence E2:pg race event order differs from the documented one (oracle accepts)\n" + line
                           + "\nevents: " + show_term(evs), failing_input=False)
-        desc = f"{line}\nrace: {name}\nimplementation final view: {show_term(parse_term(impl[k])[1])}\nmodel final view: {vals[2 * k]}\n"
+        desc = f"{line}\nrace: {name}\nimplementation views (after setup; [before stop; after wait() returned;] final): {show_term(views)}\nmodel final view: {vals[2 * k]}\n"
         if vals[2 * k + 1].strip() != "true":
-            bad.append(("999" in show_term(parse_term(impl[k])[1]),
+            bad.append(("999" in show_term(views[-1]),
                         "race: zombie / stale index / leaked entry after an exit racing a registration: " + name,
-                        "C11 oracle (check_queries, check_snapshot) rejects the final state of the race\n" + desc))
+                        "C11 oracle rejects the race: after the actor's exit completed (wait() returned) it must be in no member list, no which_* listing, no monitor list, no reverse-index record, and one Leave per membership held at exit must have reached every monitor\n" + desc))
         elif mv[1:8] != iv[1:8] or per_recipient(parse_term(vals[2 * k])[8]) != per_recipient(evs):
             # all query fields, the snapshot, and for every recipient the SEQUENCE of its notifications
             chk.coverage["disagreements_checked"] += 1
